@@ -20,6 +20,10 @@ def suite_ok(out):
 def main():
     pid, var = sys.argv[1], sys.argv[2]
     src = '/tmp/wt-%s/demo' % pid
+    tag = var
+    if '--round2' in sys.argv:
+        src = '/tmp/wh-%s/demo' % pid
+        tag = 'h' + var
     diff = os.path.join(src, 'variant_%s.diff' % var)
     demo = os.path.join(src, 'variant_%s.rs' % var)
     res = {'property': pid, 'variant': var}
@@ -72,7 +76,7 @@ def main():
         confirmed = res['demo_clean_passes'] and res['suite_passes_with_change'] and res['demo_fails_with_change']
         res['confirmed'] = confirmed
         if '--save' in sys.argv and confirmed:
-            d = os.path.join(V, 'seeded', '%s-%s' % (pid, var))
+            d = os.path.join(V, 'seeded', '%s-%s' % (pid, tag))
             os.makedirs(d, exist_ok=True)
             shutil.copy(diff, os.path.join(d, 'patch.diff'))
             shutil.copy(demo, os.path.join(d, 'demo.rs'))
@@ -82,8 +86,8 @@ def main():
                 notes = open(np).read()
             json.dump({
                 'breaks_property': pid,
-                'variant': var,
-                'origin': 'independent sub-agent given only the property text and a scratch worktree',
+                'variant': tag,
+                'origin': 'independent sub-agent given only the property text and a scratch worktree' + (' (second round: asked for subtle changes - cooperating edits, narrow refactoring slips - avoiding the first round\'s mechanisms)' if tag.startswith('h') else ''),
                 'needs_to_manifest': 'see notes',
                 'notes_from_author': notes,
                 'confirmed_by': 'tools/eval_seeded.py in a scratch copy of /repo: existing suite with the change = 59 unit + 4 doc tests pass; demo (cargo test --test demo) fails with the change and passes without it',
